@@ -24,7 +24,8 @@ THEOREMS = {
         "MG.Adj.isAdj_perm",
         "MG.Eng.backLoop_run",
         "MG.Eng.collect_post",
-    ]
+    ],
+    "MG.Proofs.Lemmas.Transpose": ["MG.Adj.reverse_eq_transpose_forward"],
 }
 
 GEN = dict(inplace=False, p_fail=0.0, p_view=0.25, p_const=0.2, n_stmts=9)
@@ -123,6 +124,5 @@ MANIFEST = {
             "integers); an independent exact forward-mode (Fraction dual numbers through plain NumPy) oracle checks every gradient.",
     "note": "Trusted: Lean kernel, axioms {propext, Classical.choice, Quot.sound}; the correspondence harness; acyclicity of the "
             "recorded graph is a hypothesis of the theorems (the model reports a cycle as RecursionError, as CPython does). "
-            "The analytic link 'solution of the adjoint equations = Fréchet derivative' rests on C02's per-op theorems and is "
-            "exercised end-to-end by the dual-number oracle, not proved compositionally (named gap C01_analytic).",
+            "reverse_eq_transpose_forward proves, for any graph and any pairing under which each edge's vjp is the transpose of its jvp (C02's per-op statements), that the adjoint solution is the transpose of forward tangent propagation; that the tangent solution is the Fréchet derivative of the composite (chain rule in Mathlib's HasFDerivAt form) is exercised end-to-end by the exact dual-number oracle, not proved compositionally (named gap C01_analytic).",
 }
